@@ -111,7 +111,7 @@ impl StunPacketDecoder {
 //@rules R5
 //@prefix
 #[verifier::rlimit(40)]
-//@before "match vx_self"
+//@after "let mut vx_self = self;"
     proof {
         axiom_slice_len_limit(data);
         axiom_vec_len_limit(&vx_self.buffer);
